@@ -296,7 +296,7 @@ func checkC12(c *Ctx) {
 		// result is the state
 		okRet := false
 		for _, in := range ls.exit.Instrs {
-			if r, ok := in.(*ssa.Return); ok && len(r.Results) == 1 && r.Results[0] == ssa.Value(state) {
+			if r, ok := in.(*ssa.Return); ok && len(r.Results) == 1 && returnedValues(r)[0] == ssa.Value(state) {
 				okRet = true
 			}
 		}
@@ -395,7 +395,7 @@ func checkC12(c *Ctx) {
 						var rets []ssa.Value
 						eachInstr(g, func(_ *ssa.BasicBlock, _ int, x ssa.Instruction) {
 							if r, ok := x.(*ssa.Return); ok && len(r.Results) == 1 {
-								rets = append(rets, r.Results[0])
+								rets = append(rets, returnedValues(r)[0])
 							}
 						})
 						if len(rets) == 1 {
@@ -868,7 +868,7 @@ func checkHashTag(c *Ctx, fn *ssa.Function) {
 				}
 			case *ssa.Return:
 				at = t.Pos()
-				r := t.Results[0]
+				r := returnedValues(t)[0]
 				got := ""
 				if r == ssa.Value(prm) {
 					got = "whole"
